@@ -817,6 +817,16 @@ class t2grid(object):
             if found: return nextblk, nextcon
             else: return None, None
 
+        def block_above(blk, grid):
+            """Returns block connected above the specified block (or None)."""
+            for con in sorted(blk.connection_name):
+                c = grid.connection[con]
+                if c.direction == 3 and c.dircos is not None:
+                    i = con_name_index(con, blk.name)
+                    if (i == 0 and c.dircos < 0.) or (i == 1 and c.dircos > 0.):
+                        return grid.block[con[1 - i]]
+            return None
+
         def block_direction_track(grid, start_block, dirn, max_volume = None):
             """Returns list of blocks and block sizes found by following specified
             direction from the starting block. Specify max_volume as a float to set
@@ -940,7 +950,8 @@ class t2grid(object):
                         mapping[geoblkname] = blk.name
                         next_blk,con = next_block_in_direction(blk, last3, 3, grid, max_volume)
                         if next_blk is None: # incomplete column
-                            atm_blk,con = next_block_in_direction(blk, last3, 3, grid)
+                            # (not a boundary block attached underneath:)
+                            atm_blk = block_above(blk, grid)
                             if atm_blk:
                                 if geo.atmosphere_type == 0:
                                     atmblockname = geo.block_name(geo.layerlist[0].name,
